@@ -236,15 +236,20 @@ def table(ctx, nsock):
 
 # ---- (c) arbitrary kind strings ---------------------------------------------------------------------------------------------
 
-@harness("C11.kind", quick=[dict(L=L) for L in (0, 1, 3, 4, 5)], thorough=[dict(L=L) for L in range(7)])
-def kind(ctx, L):
-    """every string that is not one of the 11 names raises ValueError before anything is read"""
+KIND_WITNESSES = ["", "l", "net", "cp6", ", ", "tcp, udp", "all ", " all", "ALL", "inet44", "unix\n", "tcp\x00", "i", "4", "udp,"]
+
+
+@harness("C11.kind", quick=[dict(L=L, w=None) for L in (0, 1, 3, 4, 5)] + [dict(L=0, w=i) for i in range(len(KIND_WITNESSES))],
+         thorough=[dict(L=L, w=None) for L in range(7)] + [dict(L=0, w=i) for i in range(len(KIND_WITNESSES))])
+def kind(ctx, L, w):
+    """every string that is not one of the 11 names raises ValueError before anything is read (symbolic strings of length L, plus
+    concrete witnesses such as substrings / concatenations of valid names)"""
     k = simk.Kernel(ctx)
     simk.system_files(k)
     simk.full_process(k, 11)
-    kd = seq.fresh(ctx, "kind", L, "str", lo=32, hi=126)
+    kd = seq.fresh(ctx, "kind", L, "str", lo=32, hi=126) if w is None else KIND_WITNESSES[w]
     for name in KIND:
-        if len(name) == L:
+        if len(name) == L and w is None:
             if ctx.symbolic:
                 ctx.assume(sym.SymBool(z3.Not(SymSeq.of(kd).eq_term(name))))
             else:
@@ -259,6 +264,12 @@ def kind(ctx, L):
                 outcomes.append("returned")
             except ValueError:
                 outcomes.append("ValueError")
+            except TypeError as e:
+                if "SymSeq" in str(e):
+                    raise sym.HarnessError(f"a real str method was handed the symbolic kind string: {e}") from None
+                outcomes.append(f"TypeError: {e}")
+            except Exception as e:  # noqa: BLE001
+                outcomes.append(f"{type(e).__name__}: {e}")
         n1 = k.naccess_total
     ctx.prove(outcomes == ["ValueError", "ValueError"] and n1 == n0, "unknown-kind-ValueError", detail=f"{outcomes}")
 
@@ -275,8 +286,6 @@ def unix_path(ctx, L):
     if L:
         first = SymSeq.of(path)[0]
         ctx.assume(ctx.neg(T(first, " ")))        # the kernel separates inode and path with one space; a bound name does not start with one
-        last = SymSeq.of(path)[L - 1]
-        ctx.assume(ctx.neg(T(last, " ")))         # trailing blanks are indistinguishable from the line's padding
     k.files["/proc/net/unix"] = HDR_UNIX + "0000000000000000: 00000002 00000000 00010000 0001 01 7777" + ((" " + path) if L else "") + "\n"
     k.dirs["/proc"] = ["11"]
     with k.installed(extra=[(_common, "supports_ipv6", lambda: True)]):
